@@ -2,7 +2,7 @@
 //! `lightmotif-py` crate is registered as `lightmotif.lib` (exactly like lightmotif-py/lightmotif/tests/unittest.rs),
 //! so that the Python bindings of /repo's current working tree are exercised without building a wheel.
 //!
-//!   lmpyconform record <C17|C18> <out.ndjson> [--seed N] [--thorough]
+//!   lmpyconform record <C11|C17|C18> <out.ndjson> [--seed N] [--thorough]
 use pyo3::prelude::*;
 use pyo3::types::{PyDict, PyList, PyModule};
 
@@ -19,11 +19,49 @@ fn force_arm(name: &str) -> PyResult<()> {
     Ok(())
 }
 
+// ---- watchdog (same protocol as lmconform): no progress for LMV_WATCHDOG_SECS -> <trace>.hang, exit 96 --------------
+static BEAT: std::sync::atomic::AtomicU64 = std::sync::atomic::AtomicU64::new(0);
+static HISTORIES: std::sync::atomic::AtomicU64 = std::sync::atomic::AtomicU64::new(0);
+static PENDING: std::sync::Mutex<String> = std::sync::Mutex::new(String::new());
+
+/// Called by the Python driver before / after every call into the bindings and at every recorded event.
+#[pyfunction]
+fn beat(histories: u64, pending: &str) -> PyResult<()> {
+    BEAT.fetch_add(1, std::sync::atomic::Ordering::Relaxed);
+    HISTORIES.store(histories, std::sync::atomic::Ordering::Relaxed);
+    if !pending.is_empty() {
+        if let Ok(mut g) = PENDING.lock() { *g = pending.to_string(); }
+    }
+    Ok(())
+}
+
+fn start_watchdog(trace_path: &str) {
+    let path = format!("{}.hang", trace_path);
+    let limit: u64 = std::env::var("LMV_WATCHDOG_SECS").ok().and_then(|x| x.parse().ok()).unwrap_or(60);
+    std::thread::spawn(move || {
+        let mut last = BEAT.load(std::sync::atomic::Ordering::Relaxed);
+        let mut idle = 0u64;
+        loop {
+            std::thread::sleep(std::time::Duration::from_secs(1));
+            let now = BEAT.load(std::sync::atomic::Ordering::Relaxed);
+            if now != last { last = now; idle = 0; continue; }
+            idle += 1;
+            if idle >= limit {
+                let pending = PENDING.try_lock().map(|g| g.clone()).unwrap_or_default();
+                let v = format!("{{\"hang\": true, \"idle_seconds\": {}, \"completed_histories\": {}, \"pending\": {:?}}}",
+                                idle, HISTORIES.load(std::sync::atomic::Ordering::Relaxed), pending);
+                let _ = std::fs::write(&path, v);
+                std::process::exit(96);
+            }
+        }
+    });
+}
+
 fn main() {
     std::panic::set_hook(Box::new(|_| {}));
     let args: Vec<String> = std::env::args().collect();
     if args.len() < 4 || args[1] != "record" {
-        eprintln!("usage: lmpyconform record <C17|C18> <out.ndjson> [--seed N] [--thorough]");
+        eprintln!("usage: lmpyconform record <C11|C17|C18> <out.ndjson> [--seed N] [--thorough]");
         std::process::exit(2);
     }
     let mut seed = 1u64;
@@ -38,6 +76,7 @@ fn main() {
         i += 1;
     }
     let verif = std::env::var("LMV_VERIF").unwrap_or_else(|_| "/verif".to_string());
+    start_watchdog(args[3].as_str());
     pyo3::prepare_freethreaded_python();
     let r: PyResult<String> = Python::with_gil(|py| {
         let sys = py.import_bound("sys")?;
@@ -53,6 +92,7 @@ fn main() {
         modules.set_item("lightmotif.lib", module)?;
         let hook = PyModule::new_bound(py, "lmhook")?;
         hook.add_function(wrap_pyfunction!(force_arm, &hook)?)?;
+        hook.add_function(wrap_pyfunction!(beat, &hook)?)?;
         modules.set_item("lmhook", hook)?;
         let driver = py.import_bound("driver")?;
         let out = driver.call_method1("main", (args[2].as_str(), args[3].as_str(), seed, thorough))?;
